@@ -8,6 +8,7 @@ CONSTANT ExitCodes = {0, 1}
 CONSTANT LaunchFail = FALSE
 CONSTANT SecondReaper = FALSE
 CONSTANT WakeupFd = TRUE
+CONSTANT JobControl = FALSE
 CONSTANT AllowAbort = TRUE
 SPECIFICATION Spec
 INVARIANT C01
